@@ -14,8 +14,8 @@ demos=$(git ls-files --others --exclude-standard | grep '_test.go$')
 echo "untracked: $demos" | tee -a $log
 pkgs=$(for f in $demos; do echo ./$(dirname $f); done | sort -u | tr '\n' ' ')
 go test -mod=mod -vet=off -count=1 -run 'TestSeeded' $pkgs > $out/demo_with.log 2>&1; echo "demo with change: exit $?" | tee -a $log
-git stash -q
+git diff > /tmp/mut_${tag}_keep.diff; git checkout -- .   # (git stash is shared between worktrees: not used)
 go test -mod=mod -vet=off -count=1 -run 'TestSeeded' $pkgs > $out/demo_without.log 2>&1; echo "demo without change: exit $?" | tee -a $log
-git stash pop -q
+git apply /tmp/mut_${tag}_keep.diff; rm -f /tmp/mut_${tag}_keep.diff
 go test -mod=mod -vet=off -count=1 -timeout 25m -skip 'TestSeeded' ./... > $out/suite_with.log 2>&1; echo "suite with change (Seeded skipped): exit $?" | tee -a $log
 rm -f /tmp/mut_${tag}_cur.diff
